@@ -369,18 +369,28 @@ def random_walk(rng, c, start, nmax):
     return w
 
 
-def elide(rng, c, walk, keep_first=None, keep_last=None):
-    """walk tokens -> item strings with random elision (unnamed edges cannot be listed)"""
+def elide(rng, c, walk, keep_first=None, keep_last=None, first="?", last="?"):
+    """walk tokens -> item strings with random elision (unnamed edges cannot be listed).
+    first / last = 'S': the end segment is listed; 'E': the end segment is left to its edge, which is listed (when
+    it has a name); '?': left to chance"""
+    n = len(walk)
+    keep, drop = set(), set()
+    if keep_first or first == "S":
+        keep.add(0)
+    if keep_last or last == "S":
+        keep.add(n - 1)
+    if first == "E" and n >= 3 and c.edges[walk[1][1]]["id"]:
+        drop.add(0); keep.add(1)
+    if last == "E" and n >= 3 and c.edges[walk[n - 2][1]]["id"]:
+        drop.add(n - 1); keep.add(n - 2)
     items = []
     for j, t in enumerate(walk):
         if t[0] == "E":
             eid = c.edges[t[1]]["id"]
-            if eid and rng.random() < 0.5:
+            if eid and (j in keep or rng.random() < 0.5):
                 items.append(eid + t[2])
-        else:
-            force = (j == 0 and keep_first) or (j == len(walk) - 1 and keep_last)
-            if force or rng.random() < 0.6:
-                items.append(t[1] + t[2])
+        elif j not in drop and (j in keep or rng.random() < 0.6):
+            items.append(t[1] + t[2])
     return items
 
 
@@ -411,31 +421,60 @@ def gen_case(rng, tier, i):
     glines = []          # (gid, 'O'|'U', [item strings])
     memo = {}
     onames, unames = [], []
-    ng = rng.randint(1, 6)
+    # tower: the O groups form a chain, each one tends to nest the previous one (references to references, bare or
+    # extended), so that deep nesting with every combination of signs is common
+    tower = rng.random() < 0.3
+    ng = rng.randint(3, 6) if tower else rng.randint(1, 6)
     for j in range(ng):
-        if rng.random() < 0.65:
+        if rng.random() < (0.85 if tower else 0.65):
             gid = "p%d" % (len(onames) + 1)
             definite = [p for p in onames if resolve_group(c, p, memo)[0] == "walk"]
-            if definite and rng.random() < 0.45:
-                sub = rng.choice(definite)
+            if definite and rng.random() < (0.8 if tower else 0.45):
+                sub = definite[-1] if tower and rng.random() < 0.8 else rng.choice(definite)
                 o = rng.choice("+-")
                 w = resolve_group(c, sub, memo)[1]
                 w = w if o == "+" else flip(w)
                 items = [sub + o]
+                # continuation on either side of the reference.  The segment at the junction belongs to the nested walk:
+                # it may be stated again ('S'), or the continuation starts with its edge ('E') or with the next segment
                 if rng.random() < 0.6:
-                    ext = random_walk(rng, c, w[-1][1:], rng.randint(1, 2))
-                    items += elide(rng, c, ext[1:])
-                if rng.random() < 0.4:
-                    back = random_walk(rng, c, inv(w[0][1:]), rng.randint(1, 2))
-                    items = elide(rng, c, flip(back)[:-1]) + items
+                    ext = random_walk(rng, c, w[-1][1:], rng.randint(0, 2))
+                    how = rng.choice("SEN?")
+                    if how == "S":
+                        items += elide(rng, c, ext, first="S")
+                    elif how == "E" and len(ext) >= 3 and c.edges[ext[1][1]]["id"]:
+                        items += elide(rng, c, ext, first="E")
+                    elif how == "N" and len(ext) >= 3:
+                        items += elide(rng, c, ext[2:], first="S")
+                    else:
+                        items += elide(rng, c, ext[1:])
+                if rng.random() < (0.25 if tower else 0.4):
+                    back = flip(random_walk(rng, c, inv(w[0][1:]), rng.randint(0, 2)))
+                    how = rng.choice("SEN?")
+                    if how == "S":
+                        items = elide(rng, c, back, last="S") + items
+                    elif how == "N" and len(back) >= 3:
+                        items = elide(rng, c, back[:-2], last="S") + items
+                    elif how == "E" and len(back) >= 3 and c.edges[back[-2][1]]["id"]:
+                        items = elide(rng, c, back, last="E") + items
+                    else:
+                        items = elide(rng, c, back[:-1]) + items
                 if rng.random() < 0.1:
                     items.append(rng.choice(segs) + rng.choice("+-"))
             else:
                 start = (rng.choice(segs), rng.choice("+-"))
+                live = [(s_, o_) for s_ in segs for o_ in "+-" if out_steps(c, (s_, o_))]
+                if live and rng.random() < 0.6:
+                    start = rng.choice(live)
                 w = random_walk(rng, c, start, rng.choice([0, 1, 2, 2, 3, 3, 4]))
                 if rng.random() < 0.3:
                     w = flip(w)
-                items = elide(rng, c, w)
+                # the four shapes of the ends (segment stated / segment left to its edge) are equally frequent in half
+                # of the groups, left to the elision in the others
+                if rng.random() < 0.5:
+                    items = elide(rng, c, w, first=rng.choice("SE"), last=rng.choice("SE"))
+                else:
+                    items = elide(rng, c, w)
                 if not items:
                     items = [w[0][1] + w[0][2]]
                 r = rng.random()
@@ -508,6 +547,9 @@ def tags(case):
         t.add("O-" + v[0])
         if any(c.kind.get(r, ("?",))[0] == "O" for r, _ in c.O[gid]):
             t.add("nested-path")
+            t.add("nest-depth%d" % min(nest_depth(c, gid), 4))
+            if rev_of_rev(c, gid):
+                t.add("reversed-ref-to-reversed-ref")
         if v[0] == "walk":
             t.add("walklen%d" % min(len(v[1]) // 2, 5))
     for uid, v in eu.items():
@@ -522,6 +564,23 @@ def tags(case):
     if f != sorted(f, key=lambda x: "SEOU".index(x)):
         t.add("shuffled-arrival")
     return sorted(t)
+
+
+def nest_depth(c, gid, stack=()):
+    if gid in stack or len(stack) > 8:
+        return 0
+    return 1 + max([nest_depth(c, r, stack + (gid,)) for r, _ in c.O.get(gid, []) if c.kind.get(r, ("?",))[0] == "O"] or [-1]) \
+        if gid in c.O else 0
+
+
+def rev_of_rev(c, gid):
+    """a `-` reference to a path whose first or last item is again a `-` reference to a path"""
+    for r, o in c.O[gid]:
+        if o == "-" and c.kind.get(r, ("?",))[0] == "O" and c.O.get(r):
+            for r2, o2 in (c.O[r][0], c.O[r][-1]):
+                if o2 == "-" and c.kind.get(r2, ("?",))[0] == "O":
+                    return True
+    return False
 
 
 def signature(case, failure):
@@ -621,6 +680,55 @@ def oracle(case):
                     F.append("captured-projections-wrong: %s: %r" % (desc, r2[1]))
         elif r[0] == "ok":
             F.append("%s: %s gives %s" % ("noncontiguous-accepted" if exp[0] == "nc" else "ambiguous-accepted", desc, show(c, r[1])))
+    # ------------------------------------------------------------------ reversing twice is the identity
+    # every reference `q+` / `q-` to a path is replaced by `q~-` / `q~+`, where q~ is a new group `O q~ q-`: whatever
+    # the reading of nesting, the reversed reference to the reversed path is the path itself, so every group must keep
+    # its outcome (the same walk, or an error as before).  The library is compared with itself here: this also covers
+    # the groups whose expectation above is doubtful.
+    alias = {}
+    var_lines = []
+    for l in case["lines"]:
+        f = l.split("\t")
+        if f[0] == "O":
+            its = []
+            for x in f[2].split(" "):
+                if c.kind.get(x[:-1], ("?",))[0] == "O":
+                    alias.setdefault(x[:-1], x[:-1] + "r")
+                    its.append(alias[x[:-1]] + INV[x[-1]])
+                else:
+                    its.append(x)
+            f[2] = " ".join(its)
+        var_lines.append("\t".join(f))
+    if alias and not any(a in c.kind for a in alias.values()):
+        var_lines += ["O\t%s\t%s-" % (a, q) for q, a in sorted(alias.items())]
+        g2 = gfapy.Gfa(version="gfa2", vlevel=case.get("vlevel", 1))
+        bad = [r for r in (lib.outcome(g2.add_line, l) for l in var_lines) if r[0] == "foreign"]
+        if bad:
+            F.append("foreign-exception: %s adding the lines of %r" % (bad[0][1], var_lines))
+        else:
+            for gid in c.O:
+                l1, l2 = g.line(gid), g2.line(gid)
+                r1 = lib.outcome(lambda: lib_walk(c, l1.captured_path))
+                r2 = lib.outcome(lambda: lib_walk(c, l2.captured_path))
+                desc = "O %s %s" % (gid, " ".join(a + b for a, b in c.O[gid]))
+                if "foreign" in (r1[0], r2[0]):
+                    if r2[0] == "foreign" and r1[0] != "foreign":
+                        F.append("foreign-exception: %s from captured_path of %s with nested references reversed twice "
+                                 "(%r)" % (r2[1], desc, var_lines))
+                elif r1[0] != r2[0]:
+                    F.append("double-reversal-changes-outcome: %s: %s; with every nested reference q+/q- written q~-/q~+ "
+                             "(O q~ q-): %s  [%r]" % (desc, show(c, r1[1]) if r1[0] == "ok" else "raises " + r1[1],
+                                                      show(c, r2[1]) if r2[0] == "ok" else "raises " + r2[1], var_lines))
+                elif r1[0] == "ok" and r1[1] != r2[1]:
+                    F.append("double-reversal-changes-path: %s gives %s; with every nested reference q+/q- written "
+                             "q~-/q~+ (O q~ q-) it gives %s  [%r]" % (desc, show(c, r1[1]), show(c, r2[1]), var_lines))
+            for uid in c.U:
+                l1, l2 = g.line(uid), g2.line(uid)
+                r1 = lib.outcome(lambda: sorted(str(x.name) for x in l1.induced_segments_set))
+                r2 = lib.outcome(lambda: sorted(str(x.name) for x in l2.induced_segments_set))
+                if "foreign" not in (r1[0], r2[0]) and r1 != r2 and not (r1[0] == r2[0] == "gerr"):
+                    F.append("double-reversal-changes-induced-set: U %s %s: %r; with the nested path references reversed "
+                             "twice: %r  [%r]" % (uid, " ".join(c.U[uid]), r1[1], r2[1], var_lines))
     # ------------------------------------------------------------------ induced sets
     for uid, segs in exp_u.items():
         if segs is None:
